@@ -189,5 +189,5 @@ func TestVerif_C18(t *testing.T) {
 		"the committed value is a types.String (store/datas does not interpret it)",
 		"re-open = a new view over the same in-memory chunks.TestStorage (file-backed re-open is exercised by the doltdb part)")
 	defer rec.Write(t)
-	vh.Check(t, "dag", 8000, 4000, func(rt *rapid.T) { c18Case(rt, rec) })
+	vh.Check(t, "dag", 8000, 2000, func(rt *rapid.T) { c18Case(rt, rec) })
 }
